@@ -638,7 +638,23 @@ def m_identity(i, fr, t, args):
     return args[0]
 
 
+def m_opt_is_none(i, fr, t, args):
+    v = _deref(i, args[0])
+    if not isinstance(v, Adt):
+        raise Unsupported('is_none of %r' % (v,))
+    return BV.const(1, int(v.variant == 'None'))
+
+
+def m_opt_is_some(i, fr, t, args):
+    v = _deref(i, args[0])
+    if not isinstance(v, Adt):
+        raise Unsupported('is_some of %r' % (v,))
+    return BV.const(1, int(v.variant == 'Some'))
+
+
 DEFAULT_MODELS = {
+    'std::option::Option::<T>::is_none': m_opt_is_none,
+    'std::option::Option::<T>::is_some': m_opt_is_some,
     'std::vec::Vec::<T>::new': m_vec_new,
     'std::vec::Vec::<T>::with_capacity': m_vec_new,
     'std::vec::Vec::<T, A>::push': m_vec_push,
